@@ -47,7 +47,7 @@ Lemma convert_kernel q v : q_unit S q <> v ->
   bind (a_mul am r (q_amount S q)) (fun m => Ok (q_new S m v))).
 Proof.
   intros Hne. rewrite convert_is_equiv_amount, equiv_amount_diff by exact Hne.
-  rewrite bind_assoc. reflexivity.
+  rewrite ?bind_assoc. reflexivity.
 Qed.
 
 (** * C02 comparison with a reference unit *)
@@ -81,13 +81,13 @@ Lemma ref_add_kernel x y :
   HasRefUnit_add S x y =
   bind (HasRefUnit_equiv_amount S y (q_unit S x)) (fun b =>
   bind (a_add am (q_amount S x) b) (fun s => Ok (q_new S s (q_unit S x)))).
-Proof. unfold HasRefUnit_add. rewrite bind_assoc. reflexivity. Qed.
+Proof. unfold HasRefUnit_add. rewrite ?bind_assoc. reflexivity. Qed.
 
 Lemma ref_sub_kernel x y :
   HasRefUnit_sub S x y =
   bind (HasRefUnit_equiv_amount S y (q_unit S x)) (fun b =>
   bind (a_sub am (q_amount S x) b) (fun s => Ok (q_new S s (q_unit S x)))).
-Proof. unfold HasRefUnit_sub. rewrite bind_assoc. reflexivity. Qed.
+Proof. unfold HasRefUnit_sub. rewrite ?bind_assoc. reflexivity. Qed.
 
 Lemma ref_div_kernel x y :
   HasRefUnit_div S x y =
